@@ -91,11 +91,10 @@ Proof.
   intros. unfold two_cycle_members. apply existsb_all_false. intros g _. now rewrite isco_nil.
 Qed.
 
-Lemma f7n_conj_inductive : forall fuel g P env rho, pcoind P = [] -> f7n_conj fuel P env rho g = false.
+Lemma f7n_conj_inductive : forall fuel g P, pcoind P = [] -> f7n_conj fuel P g = false.
 Proof.
-  intros fuel. induction g as [a|t1 t2|g1 IH1 g2 IH2| |g IH|g IH|hs g IH|g IH]; intros P env rho H; cbn [f7n_conj]; auto.
-  - now rewrite IH1, IH2.
-  - rewrite H, IH by assumption. rewrite orb_false_r. apply pairs_later_false. intros. apply two_cycle_members_inductive.
+  intros fuel g P H. unfold f7n_conj. rewrite H. rewrite pairs_later_false; [apply andb_false_r|].
+  intros. apply two_cycle_members_inductive.
 Qed.
 
 Theorem f7n_class_inductive : forall fuel P g, pcoind P = [] -> f7n_class fuel P g = false.
@@ -110,21 +109,9 @@ Proof.
   apply goal_any_false. intros. apply f7n_atom_inductive.
 Qed.
 
-(** F7n only looks under a negation. *)
-Fixpoint has_not (g : goal) : bool :=
-  match g with
-  | GNot _ => true
-  | GAnd g1 g2 => has_not g1 || has_not g2
-  | GForall g' | GExists g' | GIf _ g' => has_not g'
-  | _ => false
-  end.
-
-Lemma f7n_conj_needs_not : forall fuel g P env rho, has_not g = false -> f7n_conj fuel P env rho g = false.
-Proof.
-  intros fuel. induction g as [a|t1 t2|g1 IH1 g2 IH2| |g IH|g IH|hs g IH|g IH]; intros P env rho H; cbn [f7n_conj has_not] in *; auto.
-  - apply orb_false_iff in H. destruct H. now rewrite IH1, IH2.
-  - discriminate.
-Qed.
+(** F7n only looks at goals with a negation. *)
+Lemma f7n_conj_needs_not : forall fuel g P, has_not g = false -> f7n_conj fuel P g = false.
+Proof. intros fuel g P H. unfold f7n_conj. now rewrite H. Qed.
 
 Theorem f7n_class_needs_not : forall fuel P g, has_not g = false -> f7n_class fuel P g = false.
 Proof.
